@@ -642,7 +642,7 @@ func checkAtHeight(p *load.Program, r *kit.Report, headersF *types.Var) {
 	parentHeightF := p.Field(H, "Branch", "parentHeight")
 	offsetF := p.Field(H, "Branch", "offset")
 	recvKey := lin.Key(f.Params[0])
-	want := kit.LinAtom("p:height").Sub(kit.LinAtom("f:" + recvKey + "." + parentHeightF.Name())).Sub(kit.LinAtom("f:" + recvKey + "." + offsetF.Name()))
+	want := pAtom(f, 1).Sub(kit.LinAtom("f:" + recvKey + "." + parentHeightF.Name())).Sub(kit.LinAtom("f:" + recvKey + "." + offsetF.Name()))
 	bad := ""
 	n := 0
 	kit.AllInstrs(f, func(in ssa.Instruction) {
@@ -656,7 +656,7 @@ func checkAtHeight(p *load.Program, r *kit.Report, headersF *types.Var) {
 			bad = "headers index is " + got.String() + ", want " + want.String()
 		}
 		// guarded by height > parentHeight
-		gs := kit.FindGuards(f, func(c ssa.Value) (bool, bool) { return cmpMatches(lin, c, kit.LinAtom("p:height").Sub(kit.LinAtom("f:"+recvKey+"."+parentHeightF.Name())), 1) })
+		gs := kit.FindGuards(f, func(c ssa.Value) (bool, bool) { return cmpMatches(lin, c, pAtom(f, 1).Sub(kit.LinAtom("f:"+recvKey+"."+parentHeightF.Name())), 1) })
 		if ok, _ := kit.DominatedByEdges(f, in, edgesOf(gs, true), nil, p.Pos); !ok {
 			bad = "headers are indexed without the guard height > parentHeight"
 		}
@@ -666,7 +666,7 @@ func checkAtHeight(p *load.Program, r *kit.Report, headersF *types.Var) {
 			bad = "expected exactly one delegation to parent.AtHeight"
 		} else {
 			call := rec[0].(*ssa.Call)
-			if !lin.Of(call.Call.Args[1]).Equal(kit.LinAtom("p:height")) {
+			if !lin.Of(call.Call.Args[1]).Equal(pAtom(f, 1)) {
 				bad = "delegation to the parent changes the height: " + lin.Of(call.Call.Args[1]).String()
 			}
 			if ok, _ := kit.DominatedByEdges(f, call, edgesOf(gs, false), nil, p.Pos); !ok {
